@@ -4,8 +4,13 @@
 set -u
 cm=$1; shift
 [ -z "$(git -C /repo status --porcelain --untracked-files=no)" ] || { echo "repo not clean"; exit 2; }
-(git -C /repo show "$cm" -- . ':!*_test.go' | git -C /repo apply -R 2>/dev/null) || (git -C /repo show -U0 "$cm" -- . ':!*_test.go' | git -C /repo apply -R --unidiff-zero) || { echo "cannot revert $cm"; exit 2; }
 trap 'git -C /repo checkout -q -- .' EXIT
+# a fix whose lines a later fix changed again is reverted together with the later one:
+# <later>+<fix> reverts <later> first; the defect of <fix> must then be reported
+for one in $(echo "$cm" | tr '+' ' '); do
+  (git -C /repo show "$one" -- . ':!*_test.go' | git -C /repo apply -R 2>/dev/null) || (git -C /repo show -U0 "$one" -- . ':!*_test.go' | git -C /repo apply -R --unidiff-zero) || { echo "cannot revert $one"; exit 2; }
+done
+cm=${cm##*+}
 for p in "$@"; do
   out=$(cd /verif && ./check $p quick 2>&1); rc=$?
   if [ $rc -eq 1 ]; then echo "$cm $p: DETECTED"; echo "$out" | grep ': C[0-9][0-9]\.' | head -2 | cut -c1-300 | sed 's/^/    /'
